@@ -11,9 +11,10 @@ rm -f "$LOG"
 C="corpus/$T.$$"; A="artifacts/$T.$$"; mkdir -p "$C" "$A"
 python3 seed_corpus.py "$T" "$C" >/dev/null
 OUT=$(mktemp -d)
-( cd "$OUT" && "$OLDPWD/target/x86_64-unknown-linux-gnu/release/$T" "$OLDPWD/$C" -runs="$RUNS" -seed="$(( ${VERIF_SEED:-0} + 1 ))" -jobs="$JOBS" -workers="$JOBS" -len_control=0 -max_len=4096 -timeout=60 -rss_limit_mb=4096 -artifact_prefix="$OLDPWD/$A/" >/dev/null 2>&1 )
+( cd "$OUT" && "$OLDPWD/target/x86_64-unknown-linux-gnu/release/$T" "$OLDPWD/$C" -runs="$RUNS" -seed="$(( ${VERIF_SEED:-0} + 1 ))" -jobs="$JOBS" -workers="$JOBS" -len_control=0 -max_len=4096 -timeout=120 -report_slow_units=100 -rss_limit_mb=4096 -artifact_prefix="$OLDPWD/$A/" >/dev/null 2>&1 )
 V=$(cat "$OUT"/fuzz-*.log 2>/dev/null | grep -E "^VIOLATION|^  part=" | sort -u)
 EXECS=$(cat "$OUT"/fuzz-*.log 2>/dev/null | grep -E "^Done [0-9]+ runs" | awk '{s+=$2} END {print s+0}')
+rm -f "$A"/slow-unit-* 2>/dev/null   # slow inputs are not failures
 CRASH=$(ls "$A" 2>/dev/null | wc -l)
 echo "fuzz target=$T jobs=$JOBS execs=$EXECS artifacts=$CRASH"
 rm -rf "$OUT" "$C"
